@@ -60,7 +60,15 @@ package xpoa
 //@       && 0 <= p && p < len(s.GetLocalValidates(timestamp, round, storage)) && s.GetLocalValidates(timestamp, round, storage)[p] == result)
 
 // A block is accepted only from the leader entitled at the block's own timestamp; never with an empty proposer.
+// C14: the block's certificate is judged against the validator set in force for the view the
+// certificate is FOR (computed from the parent block's time and storage), and that very
+// certificate and set are what the safety rules check.
 //@ func xpoaConsensus.CheckMinerMatch
 //@   property C16
+//@   local justify *chainedBft.QuorumCert
+//@   local preBlock ledger.BlockHandle
+//@   local preConStoreBytes []byte
+//@   at xpoaSchedule.GetLocalValidates assert [C14] validator_set_of_the_certified_view: $0 == preBlock.GetTimestamp() && $1 == justify.VoteInfo.ProposalView && $2 == preConStoreBytes
+//@   at saftyRulesInterface.CheckProposal assert [C14] the_blocks_own_certificate_is_checked: ifacePtr($1) == justify
 //@   requires cfg: xpCfgOK(x.election)
 //@   ensures entitled_producer: result0 ==> str(block.GetProposer()) != "" && x.election.GetLocalLeader(block.GetTimestamp(), block.GetHeight(), block.GetConsensusStorage()) == str(block.GetProposer())
